@@ -295,8 +295,15 @@ def print_decls(spec, style=None):
     decls = []
     for k, v in spec["defines"].items():
         decls.append("#%s: %s" % (k, p_string(v)))
-    cats = {c["name"]: c for c in spec["categories"]}
-    assert len(cats) == len(spec["categories"]), "category names are unique in the output format"
+    # A category may be declared again with OTHER meta information: every such declaration is a further entry of
+    # `categories` (entries are de-duplicated as wholes, so no two entries are equal); assets name their category only,
+    # they are printed under the first declaration of that name.
+    cats = {}
+    for c in spec["categories"]:
+        cats.setdefault(c["name"], c)
+    redeclared = len(cats) != len(spec["categories"])
+    assert all(c1 != c2 for i, c1 in enumerate(spec["categories"]) for c2 in spec["categories"][:i]), \
+        "no two equal category entries in the output format"
     # runs of consecutive assets of one category
     runs = []
     for a in spec["assets"]:
@@ -309,13 +316,14 @@ def print_decls(spec, style=None):
     for c, _ in runs:
         if c not in first_seen:
             first_seen.append(c)
-    def block(cname, assets):
-        return "category %s%s {\n%s}" % (cname, p_meta(cats[cname]["meta"], "\n  "),
+    def block(cname, assets, meta=None):
+        return "category %s%s {\n%s}" % (cname, p_meta(cats[cname]["meta"] if meta is None else meta, "\n  "),
                                          "".join(p_asset(a, style) + "\n" for a in assets))
-    if first_seen != [c["name"] for c in spec["categories"]]:
-        # categories without assets, or listed in another order than their first asset: fix the order with empty blocks
+    if redeclared or first_seen != [c["name"] for c in spec["categories"]]:
+        # categories without assets, listed in another order than their first asset, or declared again with other
+        # meta: fix the entries and their order with empty blocks
         for c in spec["categories"]:
-            decls.append(block(c["name"], []))
+            decls.append(block(c["name"], [], c["meta"]))
     for cname, assets in runs:
         for chunk in _cuts(len(assets), style.split_runs, style.rnd):
             decls.append(block(cname, [assets[i] for i in chunk]))
@@ -371,6 +379,72 @@ LAYOUT_KINDS = ["single", "one", "two", "subdir", "subdir-deep", "repeat", "chai
                 "permuted", "root-only-includes"]
 
 
+# layouts in which the SAME include string, written in files of different directories, denotes DIFFERENT files
+# (an include is relative to the directory of the file that contains it, as in malc).  Every one of them also provides,
+# at the place the string would denote relative to the root, a file holding the declarations of all files of that name
+# (see the assumption on 'subdir-nested': which of the two readings holds is not fixed by the property; `ordered` is
+# True only if both readings give the declarations in their original order).
+LAYOUT_KINDS_SAMENAME = ["samename-dirs", "samename-dirs-tail", "samename-deep", "samename-repeat", "samename-three",
+                         "samename-rootdir"]
+
+
+def _segments_pref(n, k, rnd, prefer):
+    """k contiguous segments covering range(n); the segments listed in `prefer` are non-empty whenever n allows"""
+    sizes = [0] * k
+    for p in prefer[:n]:
+        sizes[p] = 1
+    for _ in range(n - sum(sizes)):
+        sizes[rnd.randrange(k)] += 1
+    out, at = [], 0
+    for z in sizes:
+        out.append(list(range(at, at + z))); at += z
+    return out
+
+
+def _make_layout_samename(kind, n, rnd):
+    I = lambda p: [["inc", p]]
+    if kind in ("samename-dirs", "samename-repeat", "samename-deep"):
+        # main: s0 | <a/mod: s1, own leaf: s2> | <b/mod: own leaf: s3, s4> | s5
+        s = _segments_pref(n, 6, rnd, [2, 3])
+        if kind == "samename-deep":
+            da, db = rnd.sample(["x", "y_1", "net/core", "sub"], 2)
+            ma, mb, leaf = da + "/m.mal", db + "/n.mal", rnd.choice(("sub/leaf.mal", "inc/deeper/leaf_1.mal"))
+        else:
+            da, db = rnd.choice((("a", "b"), ("compute", "network"), ("sub", "sub/deeper")))
+            ma, mb, leaf = da + "/mod.mal", db + "/mod.mal", rnd.choice(("assoc.mal", "part.mal"))
+        root = D(s[0]) + I(ma) + I(mb) + D(s[5])
+        if kind == "samename-repeat":
+            root = D(s[0]) + I(ma) + I(mb) + I(ma) + (I(mb) if rnd.random() < 0.5 else []) + D(s[5])
+        return {"kind": kind, "ordered": True, "files": [
+            ["main.mal", root], [ma, D(s[1]) + I(leaf)], [da + "/" + leaf, D(s[2])],
+            [mb, I(leaf) + D(s[4])], [db + "/" + leaf, D(s[3])], [leaf, D(s[2]) + D(s[3])]]}
+    if kind == "samename-dirs-tail":
+        # both modules include their own leaf after their declarations (root-relative reading: another order)
+        s = _segments_pref(n, 6, rnd, [2, 4])
+        return {"kind": kind, "ordered": False, "files": [
+            ["main.mal", D(s[0]) + I("compute/module.mal") + I("network/module.mal") + D(s[5])],
+            ["compute/module.mal", D(s[1]) + I("assoc.mal")], ["compute/assoc.mal", D(s[2])],
+            ["network/module.mal", D(s[3]) + I("assoc.mal")], ["network/assoc.mal", D(s[4])],
+            ["assoc.mal", D(s[2]) + D(s[4])]]}
+    if kind == "samename-three":
+        s = _segments_pref(n, 7, rnd, [2, 4, 6])
+        dirs = ["a", "b", "c/d"]
+        files = [["main.mal", D(s[0]) + [x for d in dirs for x in I(d + "/mod.mal")]]]
+        for i, d in enumerate(dirs):
+            files.append([d + "/mod.mal", D(s[1 + 2 * i]) + I("part.mal")])
+            files.append([d + "/part.mal", D(s[2 + 2 * i])])
+        files.append(["part.mal", D(s[2]) + D(s[4]) + D(s[6])])
+        return {"kind": kind, "ordered": False, "files": files}
+    if kind == "samename-rootdir":
+        # "lib/x.mal" written in a/mod.mal is a/lib/x.mal, written in main.mal it is lib/x.mal (which, for the
+        # root-relative reading, starts with the declarations of a/lib/x.mal)
+        s = _segments_pref(n, 5, rnd, [2, 3])
+        return {"kind": kind, "ordered": True, "files": [
+            ["main.mal", D(s[0]) + I("a/mod.mal") + I("lib/x.mal") + D(s[4])],
+            ["a/mod.mal", D(s[1]) + I("lib/x.mal")], ["a/lib/x.mal", D(s[2])], ["lib/x.mal", D(s[2]) + D(s[3])]]}
+    raise ValueError(kind)
+
+
 def _segments(n, k, rnd):
     """k contiguous (possibly empty) segments covering range(n)"""
     cuts = sorted(rnd.randint(0, n) for _ in range(k - 1))
@@ -386,6 +460,8 @@ def make_layout(kind, n, seed=0):
     rnd = random.Random(seed)
     if kind == "single":
         return {"kind": kind, "ordered": True, "files": [["main.mal", D(range(n))]]}
+    if kind in LAYOUT_KINDS_SAMENAME:
+        return _make_layout_samename(kind, n, rnd)
     if kind in ("one", "subdir", "subdir-deep", "repeat"):
         s0, s1, s2 = _segments(n, 3, rnd)
         p = {"one": "b.mal", "repeat": "b.mal", "subdir": "sub/b.mal", "subdir-deep": "sub/deeper/b_1.mal"}[kind]
@@ -661,8 +737,14 @@ def gen_reach(rnd, depth, fields, variables, types, steps):
     return binop("collect", e, s)
 
 
-def gen_spec(seed, size=2, depth=4):
-    """random specification; size 1..3 scales the number of categories / assets / steps / associations"""
+def gen_spec(seed, size=2, depth=4, shared_names=False):
+    """random specification; size 1..3 scales the number of categories / assets / steps / associations.
+    shared_names: additionally (drawn from a generator of its own, the base specification is the one obtained without
+    the flag) 1-3 associations that take the NAME of an earlier association - between the same two asset types with
+    other field names, the same types swapped, other types, or differing in one field / a multiplicity / the meta
+    only - and, sometimes, a category declared again with other meta."""
+    if shared_names:
+        return add_shared_names(gen_spec(seed, size, depth), random.Random(seed * 7919 + 13))
     rnd = random.Random(seed)
     nm = Names(rnd)
     ncat = rnd.randint(1, size)
@@ -710,7 +792,107 @@ def gen_spec(seed, size=2, depth=4):
     return mk_spec(assets, assocs, categories=cats, defines=defines)
 
 
+SHARED_NAME_MODES = ["same-types-other-fields", "same-types-other-fields", "swapped-types", "other-types",
+                     "left-field-only", "right-field-only", "multiplicity-only", "meta-only"]
+
+
+def variant_assoc(base, mode, k, anames, rnd):
+    """an association with the name of `base` that differs from it as `mode` says (k makes fresh field names)"""
+    x = copy.deepcopy(base)
+    if mode == "same-types-other-fields":
+        x["leftField"], x["rightField"] = "lf_%d" % k, "rf_%d" % k
+        if rnd.random() < 0.5:
+            x["leftMultiplicity"] = dict(zip(("min", "max"), rnd.choice(MULTS)))
+        if rnd.random() < 0.3:
+            x["meta"] = {"developer": "variant %d" % k}
+    elif mode == "swapped-types":
+        x["leftAsset"], x["rightAsset"] = base["rightAsset"], base["leftAsset"]
+        if base["rightAsset"] == base["leftAsset"] or rnd.random() < 0.5:
+            x["leftField"], x["rightField"] = base["rightField"], base["leftField"]
+            if x == base:
+                x["rightField"] = "rf_%d" % k
+    elif mode == "other-types":
+        x["rightAsset"] = rnd.choice(anames)
+        x["leftField"], x["rightField"] = "lf_%d" % k, "rf_%d" % k
+    elif mode == "left-field-only":
+        x["leftField"] = "lf_%d" % k
+    elif mode == "right-field-only":
+        x["rightField"] = "rf_%d" % k
+    elif mode == "multiplicity-only":
+        lo, hi = base["rightMultiplicity"]["min"], base["rightMultiplicity"]["max"]
+        x["rightMultiplicity"] = {"min": lo + 1, "max": None if hi is None else hi + 1}
+    elif mode == "meta-only":
+        x["meta"] = dict(base["meta"]); x["meta"]["note_1"] = "variant %d" % k
+    else:
+        raise ValueError(mode)
+    return x
+
+
+def add_shared_names(spec, rnd):
+    spec = copy.deepcopy(spec)
+    anames = [a["name"] for a in spec["assets"]]
+    assocs = spec["associations"]
+    if not assocs:
+        assocs.append(mk_assoc("Shared", rnd.choice(anames), "lf_0", rnd.choice(MULTS), rnd.choice(anames), "rf_0",
+                               rnd.choice(MULTS)))
+    for k in range(1, rnd.randint(1, 3) + 1):
+        x = variant_assoc(rnd.choice(assocs), rnd.choice(SHARED_NAME_MODES), k, anames, rnd)
+        if x not in assocs:
+            assocs.insert(rnd.randint(0, len(assocs)), x)
+    if spec["categories"] and rnd.random() < 0.35:
+        c = rnd.choice(spec["categories"])
+        again = {"name": c["name"], "meta": dict(c["meta"])}
+        again["meta"][rnd.choice(META_KEYS)] = "declared again %d" % rnd.randrange(100)
+        if again not in spec["categories"]:
+            spec["categories"].insert(rnd.randint(0, len(spec["categories"])), again)
+    return spec
+
+
 # ---- enumerations (exhaustive small scopes) ---------------------------------------------------------
+
+def enum_shared_name_assocs():
+    """every pair (first association, second association) where the second one agrees with / differs from the first
+    in each of: name, (left, right) asset types (same, swapped, reflexive on either type), left field, right field,
+    multiplicities, meta -- except the pair of two equal associations (which denotes ONE association); and the same
+    with a third association between the two that shares only the name."""
+    first = mk_assoc("Conn", "Host", "a1", (0, None), "Net", "b1", (0, 1))
+    for name in ("Conn", "Other"):
+        for (l, r) in (("Host", "Net"), ("Net", "Host"), ("Host", "Host"), ("Net", "Net")):
+            for lf in ("a1", "a2"):
+                for rf in ("b1", "b2"):
+                    for rm in ((0, 1), (1, None)):
+                        for meta in ({}, {"user": "second"}):
+                            second = mk_assoc(name, l, lf, (0, None), r, rf, rm, meta=meta)
+                            if second == first:
+                                continue
+                            yield [first, second]
+                            if lf == "a2" and rm == (0, 1) and not meta:
+                                yield [first, mk_assoc("Conn", "Net", "c1", (1, 1), "Net", "c2", (0, None)), second]
+                                yield [second, first, copy.deepcopy(second) | {"leftField": "a3", "rightField": "b3"}]
+
+
+def spec_with_assocs(assocs):
+    return mk_spec([mk_asset("Host"), mk_asset("Net", sup="Host")], assocs)
+
+
+def enum_redeclared_categories():
+    """categories entries that share their name and differ in their meta (by a value, by a key, empty / non-empty),
+    2 or 3 entries, with / without assets, adjacent or separated by another category"""
+    metas = [{}, {"user": "x"}, {"user": "y"}, {"developer": "x"}, {"user": "x", "developer": "d"}]
+    for i, m1 in enumerate(metas):
+        for m2 in metas:
+            if m1 == m2:
+                continue
+            for with_assets in (False, True):
+                assets = [mk_asset("Host", category="Cat")] if with_assets else []
+                yield mk_spec(assets, categories=[{"name": "Cat", "meta": m1}, {"name": "Cat", "meta": m2}])
+            if i < 2:
+                yield mk_spec([mk_asset("Host", category="Cat"), mk_asset("Net", category="Mid"), mk_asset("X1", category="Cat")],
+                              [mk_assoc("Conn", "Host", "a1", (0, None), "Net", "b1", (0, 1))],
+                              categories=[{"name": "Cat", "meta": m1}, {"name": "Mid", "meta": {}}, {"name": "Cat", "meta": m2},
+                                          {"name": "Cat", "meta": {"note_1": "third"}}])
+
+
 
 def enum_ttc(max_ops, leaves=None):
     """every TTC tree with <= max_ops binary operators over the five operators; the k-th leaf (left to right) is a
@@ -837,6 +1019,21 @@ def valid_mini():
         mk_assoc("Attached", "Host", "hosts", (0, None), "Net", "nets", (0, None), meta={"developer": "n:m"}),
         mk_assoc("Tree", "Host", "parent", (0, 1), "Host", "children", (0, None)),
     ], categories=[{"name": "Compute", "meta": {}}, {"name": "Networking", "meta": {"user": "nets"}}])
+
+
+def valid_mini_shared_names():
+    """valid_mini plus associations that share name AND both asset types with an existing one and differ in their
+    field names (the toolbox tells such associations apart by their fields); the new fields are used by steps"""
+    spec = valid_mini()
+    host = spec["assets"][0]
+    host["attackSteps"].append(mk_step("spread", "or", reaches=[
+        binop("collect", field("backupNets"), astep("sniff")),
+        binop("collect", binop("union", field("replicas"), field("children")), astep("access"))]))
+    spec["associations"][1:1] = [
+        mk_assoc("Attached", "Host", "backupHosts", (0, 1), "Net", "backupNets", (1, None), meta={"developer": "second Attached"}),
+    ]
+    spec["associations"].append(mk_assoc("Tree", "Host", "primary", (0, 1), "Host", "replicas", (0, None)))
+    return spec
 
 
 # ---- coreLang ---------------------------------------------------------------------------------------
